@@ -24,7 +24,7 @@ MODELLED = {
     "replace": [2], "append": [2, 3], "collect": None,
 }
 # qualifiers the specification gives a meaning to on a function / on the left of an assignment
-FN_QUALS = {"onmatch", "once", "notnone", "distinct"}
+FN_QUALS = {"onmatch", "once", "notnone", "distinct", "nocontrib"}
 VAR_QUALS = {"onmatch", "latch", "onchange", "increase", "decrease", "notnone", "asbool", "nocontrib"}
 
 
